@@ -219,8 +219,8 @@ def run(rep: Report, only: str = "") -> None:
     from unit_scaling.core.functional import transformer_residual_scaling_rule
 
     thorough = rep.tier == "thorough"
-    timeout = 300 if thorough else 60
-    depth = 3 if thorough else 2
+    timeout = 900 if thorough else 120
+    depth = 3 if thorough else 1
     tasks = [(task_step, (0, timeout)), (task_step, (1, timeout)), (task_final, (timeout,))]
     tasks += [(task_unrolled, (n, timeout)) for n in range(1, depth + 1)]
     tasks.append((wiring, (64 if thorough else 32,)))
